@@ -154,6 +154,11 @@ MUTANTS = [
     ("boundary_sub_is_add", "bempp_cl/api/assembly/boundary_operator.py", "        return self.__add__(-other)", "        return self.__add__(other)", 0, ["C14"]),
     ("discrete_neg_positive", "bempp_cl/api/assembly/discrete_boundary_operator.py", "return _ScaledDiscreteOperator(self, -1)", "return _ScaledDiscreteOperator(self, 1)", 0, ["C14"]),
     ("blocked_mul_operand_order", "bempp_cl/api/assembly/blocked_operator.py", "return ProductBlockedOperator(self, other)", "return ProductBlockedOperator(other, self)", 0, ["C14"]),
+    ("p1_grid_boundary_forgotten", "bempp_cl/api/space/scalar_spaces.py", "node_is_interior = len(non_support_neighbors) == 0 and not grid_data.vertex_on_boundary[vertex]", "node_is_interior = len(non_support_neighbors) == 0", 0, ["C09"]),
+    ("p1_extension_ignores_truncate", "bempp_cl/api/space/scalar_spaces.py", "if len(non_support_neighbors) > 0 and not truncate_at_segment_edge and include_boundary_dofs:", "if len(non_support_neighbors) > 0 and include_boundary_dofs:", 0, ["C09"]),
+    ("p1_alias_guard_flip", "bempp_cl/api/space/scalar_spaces.py", "                if local2global[element_index, local_index] == -1:\n                    local2global_final[element_index, local_index] = max_dof", "                if local2global[element_index, local_index] != -1:\n                    local2global_final[element_index, local_index] = max_dof", 0, ["C09"]),
+    ("p1_slot_sentinel_zero", "bempp_cl/api/space/scalar_spaces.py", "local2global = -_np.ones((number_of_elements, 3), dtype=_np.int32)", "local2global = _np.zeros((number_of_elements, 3), dtype=_np.int32)", 0, ["C09"]),
+    ("p1_neighbour_slot_own_index", "bempp_cl/api/space/scalar_spaces.py", "                    local2global[en, other_local_index] = vertex", "                    local2global[en, local_index] = vertex", 0, ["C09"]),
     ("rwg_edge_table_sentinel", "bempp_cl/api/space/maxwell_spaces.py", "    edge_dofs = -_np.ones(number_of_edges, dtype=_np.int32)", "    edge_dofs = _np.ones(number_of_edges, dtype=_np.int32)", 0, ["C09"]),
     ("rwg_two_neighbours_flip", "bempp_cl/api/space/maxwell_spaces.py", "                if len(supported_neighbors) == 2:", "                if len(supported_neighbors) != 2:", 0, ["C09"]),
     ("rwg_boundary_dofs_ignored", "bempp_cl/api/space/maxwell_spaces.py", "                if len(supported_neighbors) == 1 and include_boundary_dofs:", "                if len(supported_neighbors) == 1:", 0, ["C09"]),
@@ -229,6 +234,7 @@ MUTANTS = [
 
 # behaviour-preserving rewrites: every listed check must stay silent (exit 0)
 EQUIVALENTS = [
+    ("eq_p1_dof_table_init", "bempp_cl/api/space/scalar_spaces.py", "    dofs = -_np.ones(number_of_vertices)", "    dofs = _np.zeros(number_of_vertices)", 0, ["C09", "C16"]),
     ("eq_rwg_dofmap_init", "bempp_cl/api/space/maxwell_spaces.py", "        dofmap = -_np.ones(3, dtype=_np.int32)", "        dofmap = _np.zeros(3, dtype=_np.int32)", 0, ["C09", "C16"]),
     ("eq_guard_not_eq", "bempp_cl/api/operators/boundary/maxwell.py", "    if domain.identifier != \"rwg0\":", "    if not (domain.identifier == \"rwg0\"):", 0, ["C06"]),
     ("eq_guard_in_tuple", "bempp_cl/api/operators/potential/maxwell.py", "    if space.identifier != \"rwg0\":", "    if space.identifier not in (\"rwg0\",):", 0, ["C08"]),
